@@ -3,6 +3,8 @@ sys.path.insert(0, '/verif')
 from pyvc.verifier import Engine
 from pyvc import run
 eng = Engine().load()
+import os
+if os.environ.get('PYVC_QUICK_CLI'): eng.quick_cli = True
 pats = [a for a in sys.argv[1:] if not a.startswith("-")]
 results = []
 allc = list(eng.contracts.by_key.items()) + [(("<lemma>", n, "default"), c) for n, c in eng.contracts.lemmas.items()]
